@@ -21,6 +21,7 @@ PROP = "C08"
 READY = True
 DRIVER = "dm_graph"
 LEAN_MODULES = ["DaskModel.Props.C08"]
+TABLES = ["TaskSpecSlots"]
 LEVEL_TEXT = ("Lean 4 theorems over a transliteration of convert_legacy_task/convert_legacy_graph, Task.__call__/_eval, "
               "NestedContainer evaluation and the statement's legacy semantics, with user functions uninterpreted. Proved for all "
               "objects/graphs/environments: convert_preserves_eval_partial + convertGraph_preserves_eval_partial (conversion + "
@@ -28,7 +29,10 @@ LEVEL_TEXT = ("Lean 4 theorems over a transliteration of convert_legacy_task/con
               "`clean`), deps_exact (a node's dependencies are sufficient and each is necessary for its evaluation, through "
               "nested containers/kwargs). The statement at full strength is REFUTED for the code as it is by two witnesses that "
               "replay on /repo (known findings): dict values are not evaluated; non-task tuples are evaluated elementwise; the "
-              "same witnesses separate node.dependencies from get_dependencies. Pickle round trips are validated, not yet modelled.")
+              "same witnesses separate node.dependencies from get_dependencies. Pickling: task_pickle_roundtrip / "
+              "container_pickle_roundtrip (slot lists extracted from the AST on every run; every slot, in particular "
+              "_dependencies/func/args/kwargs, is restored; the dropped `constructor` kwarg is restored from the class), "
+              "alias_pickle_roundtrip; Alias(key, target) keeps an explicit target whatever its truth value (aliasInit).")
 LEVEL_NOTE = ("Trusted: Lean kernel + standard axioms; the hand transliteration, tied on every run by (a) structural diff of the "
               "real converted graph against the model's, (b) dask.core.get vs the model's coreGet on every key, (c) the legacy "
               "semantics computed by Lean and by an independent Python interpreter, (d) node.dependencies / get_dependencies vs "
@@ -154,6 +158,62 @@ def case_legacy(ctx, inp):
             ctx.fail(f"node evaluation raised {type(e).__name__}: {e}")
 
 
+def _enc_slot(v):
+    """slot value -> s-expression of an `Obj` (nested nodes / TaskRefs / classes are encoded by a stable string)"""
+    from dask._task_spec import GraphNode, TaskRef
+    if v is None or isinstance(v, str):
+        return v
+    if isinstance(v, bool):
+        return [Sym("t"), "bool", int(v)]
+    if isinstance(v, int):
+        return int(v)
+    if isinstance(v, (frozenset, set)):
+        return [Sym("l")] + sorted((_enc_slot(x) for x in v), key=repr)
+    if isinstance(v, tuple):
+        return [Sym("t")] + [_enc_slot(x) for x in v]
+    if isinstance(v, list):
+        return [Sym("l")] + [_enc_slot(x) for x in v]
+    if isinstance(v, dict):
+        return [Sym("d")] + [[_enc_slot(k), _enc_slot(x)] for k, x in v.items()]
+    if isinstance(v, (GraphNode, TaskRef)):
+        return "node:" + json.dumps(node_sexp(v), default=str)
+    try:
+        return to_sexp(v)
+    except TypeError:
+        return "obj:" + getattr(v, "__qualname__", type(v).__name__)
+
+
+def _slot_check(ctx, n):
+    """Task / NestedContainer: slot list vs the extracted table, and the slot values after a real pickle round trip vs
+    the model's `taskRoundtrip` / `containerRoundtrip`"""
+    from dask._task_spec import NestedContainer, Task
+    if not isinstance(n, Task):
+        return
+    is_c = isinstance(n, NestedContainer)
+    slots = type(n).get_all_slots()
+    ctx.eq("get_all_slots vs extracted table", ctx.lean(Sym("slots"), Sym("container" if is_c else "task")), list(slots))
+    attrs = [[sl, _enc_slot(getattr(n, sl))] for sl in slots]
+    n2 = pickle.loads(pickle.dumps(n))
+    attrs2 = [[sl, _enc_slot(getattr(n2, sl))] for sl in slots]
+    if is_c:
+        m = ctx.lean(Sym("container_roundtrip"), _enc_slot(type(n).constructor), attrs)
+        ctx.branch("pickle-container")
+    else:
+        m = ctx.lean(Sym("task_roundtrip"), attrs)
+        ctx.branch("pickle-task")
+    if m[0] == "ok":
+        # the model keeps dict entries in insertion order; Python dict equality ignores it
+        def norm(a):
+            return [[k, sorted(v[1:], key=repr) if isinstance(v, list) and v and v[0] == "d" else v] for k, v in a]
+        ctx.eq("slot values after pickle round trip", norm(m[1]), norm(attrs2))
+    else:
+        ctx.disagree("model cannot pickle the node", m, attrs2)
+    for a in n.args:
+        _slot_check(ctx, a)
+    for a in n.kwargs.values():
+        _slot_check(ctx, a)
+
+
 def _mk_node(j, key=None):
     """JSON description of a task-spec node -> real object.
     {"alias": k} {"data": obj} {"ref": k} {"raw": obj} {"task": fn, "args": [...], "kw": [[name, node]...]}
@@ -242,6 +302,7 @@ def case_spec(ctx, inp):
             break
         n2 = pickle.loads(pickle.dumps(n))
         ctx.eq("pickle round trip structure", node_sexp(n2), node_sexp(n))
+        _slot_check(ctx, n)
         if set(n2.dependencies) != set(n.dependencies):
             ctx.fail("pickle round trip changes dependencies", observed=sorted(map(repr, n2.dependencies)))
         if impl_v[0] == "ok":
